@@ -117,6 +117,14 @@ theorem C10_frame_mapSel (m : String → Bool) (f : Res → Except Err Res) :
       simp [hr']
     | succ j => simp at hx ⊢; exact hf j x hx hm
 
+/-- Frame under composition: whatever pipeline ran before (any steps, any length), a selecting step leaves the
+resources it does not select exactly as that pipeline left them. -/
+theorem C10_frame_after_any_prefix (steps : List (Pkg → Except Err Pkg)) (m : String → Bool)
+    (f : Res → Except Err Res) (p p1 q : Pkg)
+    (_h1 : steps.foldlM (fun acc s => s acc) p = .ok p1) (h2 : mapSel m f p1 = .ok q) :
+    q.length = p1.length ∧ ∀ (i : Nat) (r : Res), p1[i]? = some r → m r.name = false → q[i]? = some r :=
+  C10_frame_mapSel m f p1 q h2
+
 /-- Selected resources are exactly the ones `f` is applied to. -/
 theorem C10_acts_on_selected (m : String → Bool) (f : Res → Except Err Res) :
     ∀ (p q : Pkg), mapSel m f p = .ok q →
